@@ -13,7 +13,7 @@ import ticc_util as tu
 from common import show_list, frac_str
 
 LEVEL = "other"
-LEAN_PROPS = ["FastTicc.Props.C16", "FastTicc.Props.C05", "FastTicc.Props.Final"]
+LEAN_PROPS = ["FastTicc.Props.C16", "FastTicc.Props.C05", "FastTicc.Props.Final", "FastTicc.Props.OptPhase"]
 LEAN_HELPERS = ["FastTicc.Proofs.Result", "FastTicc.Proofs.Final"]
 RULE = ("(a) synthetic models: label patterns (one run, many runs, returning labels, unused clusters, joint sequences) "
         "x MRFs with entries around the 2e-5 threshold, and a scale sweep of determinants far outside the double range; "
@@ -207,4 +207,6 @@ def run(ctx):
                  sample={"T": len(labels), "runs": runs, "P": P, "bic": got} if len(ctx.samples) < 6 else None)
 
     # ---------------- (c) whole-result replay (Final.report): the BIC of a traced real run vs the composed model
-    replay_run.whole_result_section(ctx, cfgs, ("bic",), 5 if ctx.quick() else 40)
+    replay_run.whole_result_section(ctx, [c for c in cfgs if not c.get("eps")], ("bic",), 3 if ctx.quick() else 25)
+    # … and with a covariance floor: the model re-inflates and FILTERS the raw solver outputs itself (OptPhase.reconstruct)
+    replay_run.whole_result_section(ctx, [c for c in cfgs if c.get("eps")], ("bic",), 2 if ctx.quick() else 15)
